@@ -56,6 +56,15 @@ Whys(e) ==
          <<IF e.okAt = 0 /\ ~(e.kind = "err" /\ e.draws = 200 * e.len) THEN "P:C16:retry-budget-default-is-not-200-attempts" ELSE "ok",
            IF e.okAt \in 1..200 /\ ~(e.kind = "ok" /\ e.draws = e.okAt * e.len) THEN "P:C16:retry-budget-default-is-not-200-attempts" ELSE "ok",
            IF e.okAt > 200 /\ e.kind # "err" THEN "P:C16:retry-budget-default-is-not-200-attempts" ELSE "ok">>
+    [] e.op = "tolerance" ->    \* defaults 200 / 1e-9: refuse when the exact single-attempt success fraction is <= 0.085, never when >= 0.11
+         LET r == e.char
+             A == Cardinality(Alphabet(r))
+             num == CountValidBig(r)
+             den == Pow(FromInt(A), r.len)
+         IN <<IF Le(MulSmall(num, 1000), MulSmall(den, 85)) /\ ~(e.kind = "err" /\ e.err = "failrate" /\ e.draws = 0)
+                THEN "P:C16:a-recipe-beyond-the-tolerated-failure-probability-of-1e-9-was-not-refused-up-front" ELSE "ok",
+              IF ~Lt(MulSmall(num, 1000), MulSmall(den, 110)) /\ e.kind = "err" /\ e.err = "failrate"
+                THEN "P:C16:a-recipe-within-the-tolerated-failure-probability-was-refused" ELSE "ok">>
     [] e.op = "preset" ->
          LET want == PresetValues(e.name)
              got == {e.vals[i].v : i \in DOMAIN e.vals}
